@@ -283,7 +283,7 @@ def run_c07(ctx):
                     if not found:
                         status = "no-input"
                     elif not template_level:
-                        status = "confirmed"          # marker text, missing output, a real build error: the property itself
+                        status = "direct"             # marker text, missing output, a real build error: the property itself
                     elif _bc:
                         status = "clean"              # the toolchain accepts what my templates reject
                     elif _hv:
@@ -374,15 +374,17 @@ def run_c07(ctx):
         rm(d)
     for sig in sorted(pending):
         slot = pending[sig]
-        if "confirmed" in slot:
-            what, replay, _ = slot["confirmed"]
+        if "direct" in slot:
+            what, replay, _ = slot["direct"]
             ctx.finding(sig, what, replay, True)
         elif "clean" in slot:
+            # the same complaint about an output the toolchain accepts: whatever made another occurrence fail to build
+            # (a known finding of that program, usually) was not this
             what, replay, l = slot["clean"]
             ctx.finding(sig, what + " — the %s toolchain accepts this output wherever it was built: correspondence T2 (statement templates of tv/%s) broken, "
                         "no failing input" % (l, l), dict(replay or {}, broken="correspondence T2: tv extractor templates vs the emitted text"), False)
-        elif "unknown" in slot:
-            what, replay, _ = slot["unknown"]
+        elif "confirmed" in slot or "unknown" in slot:
+            what, replay, _ = slot.get("confirmed") or slot["unknown"]
             ctx.finding(sig, what, replay, True)
         else:
             what, replay, _ = slot["no-input"]
